@@ -285,7 +285,7 @@ class C15(Check):
             for opt in VALUES:
                 yield {'kind': 'opt', 'given': given, 'probe': opt}
         # (b) cache / buffer decorators
-        for tau in (16 * U, 256 * U, 2048 * U, 3 * U):
+        for tau in (16 * U, 256 * U, 2048 * U, 3 * U, 0, 0.0):
             yield {'kind': 'buffer', 'timeout': tau}
             yield {'kind': 'buffer', 'timeout': tau, 'fail_first': 1}
             yield {'kind': 'buffer', 'timeout': tau, 'fail_first': 2}
@@ -548,7 +548,17 @@ class C15(Check):
             la = [e for e in r.log if e[0] == 'last_arrival']
             fs = [e for e in r.log if e[0] == 'fstart']
             out[form] = r.log
-            if not fs or not la or abs(fs[0][2] - (la[0][1] + tau)) > EPS or fs[0][1] != [1, 2]:
+            if tau == 0:
+                # "as soon as the loop is idle": no absolute expectation of how the two arrivals are grouped, but every
+                # form must do what the class does (compared below) and deliver both without delay
+                got = sorted(x for e in fs for x in e[1])
+                if got != [1, 2] or not la or any(e[2] - la[0][1] > EPS for e in fs):
+                    res.violate(f'C15:option-not-in-effect:timeout:{form}', 'timeout=0 given but the arguments were not delivered at once',
+                                observed=[e for e in r.log][:5], timeout=tau)
+                else:
+                    st['measured_timeout_zero'] += 1
+                    res.nontrivial = True
+            elif not fs or not la or abs(fs[0][2] - (la[0][1] + tau)) > EPS or fs[0][1] != [1, 2]:
                 res.violate(f'C15:option-not-in-effect:timeout:{form}',
                             f'timeout={tau} given to the {form} form but the flush did not happen `timeout` after the last arrival',
                             observed=[e for e in r.log][:5], timeout=tau)
@@ -556,6 +566,11 @@ class C15(Check):
                 st['option_effects_measured'] += 1
                 st['measured_timeout'] += 1
                 res.nontrivial = True
+        for form in ('deco_opts', 'direct'):
+            if out.get(form) != out.get('class') and not res.violations:
+                res.violate(f'C15:forms-differ:timeout:{form}', f'buffer_until_timeout in the {form} form did not behave like '
+                            'BufferAsyncCalls with the same timeout', timeout=tau, form_log=out.get(form, [])[:6],
+                            class_log=out.get('class', [])[:6])
         res.sample = {'timeout': tau, 'log': out.get('deco_opts', [])[:6]}
 
     def run_cache(self, case, res):
